@@ -692,9 +692,13 @@ func lightMedium(c *Ctx, prop string, undo bool, collect ...string) {
 				continue
 			}
 			for _, R := range rems {
-				for _, k := range []int{0, 1} {
+				ks := []int{0, 1}
+				if up := nextPow2(cf.N) - cf.N; up > 1 {
+					ks = append(ks, up) // fills the forest up to one tree, over every empty root on the way
+				}
+				for _, k := range ks {
 					kr := []int{}
-					if k == 1 && prop != "C11" {
+					if k >= 1 && prop != "C11" {
 						kr = []int{0}
 					}
 					h := []Op{{Kind: "block", Adds: cf.N, Rem: R}, {Kind: "block", Dels: S, Adds: k, Rem: kr}}
@@ -753,6 +757,66 @@ func lightMedium(c *Ctx, prop string, undo bool, collect ...string) {
 		}
 		c.Cov.Bound["two_deletion_blocks"] = fmt.Sprintf("N=%d, every disjoint non-empty S,T, remember all / even / first / last; %d histories", tdN, len(jobs)-before)
 	}
+	// very tall family: 255..513 leaves (rows 7..9, where 8-bit counters and shifts overflow): whole
+	// aligned halves and quarters deleted, additions that carry up over the emptied root, then the
+	// first / last survivor deleted
+	{
+		vtNs := []int{255}
+		if c.Thorough() {
+			vtNs = []int{127, 128, 255, 256, 257, 511, 512, 513}
+		}
+		before := len(jobs)
+		rng := func(a, b int) []int {
+			var x []int
+			for i := a; i < b; i++ {
+				x = append(x, i)
+			}
+			return x
+		}
+		for _, N := range vtNs {
+			p2 := 1
+			for p2*2 <= N {
+				p2 *= 2
+			}
+			half, quarter := p2/2, p2/4
+			_, evens := mk(N)
+			rems := [][]int{evens, {0, half, p2 - 1, N - 1}}
+			if prop == "C11" {
+				rems = [][]int{{}}
+			}
+			for _, R := range rems {
+				for _, S := range [][]int{rng(0, half), rng(half, p2), rng(quarter, half), rng(0, p2), {0}, {half}, rng(1, half), rng(half, p2-1)} {
+					for _, k := range []int{0, 1, 3} {
+						kr := []int{}
+						if prop != "C11" {
+							kr = rng(0, k)
+						}
+						h := []Op{{Kind: "block", Adds: N, Rem: R}, {Kind: "block", Dels: S, Adds: k, Rem: kr}}
+						dead := map[int]bool{}
+						for _, d := range S {
+							dead[d] = true
+						}
+						first := -1
+						for x := 0; x < N && first < 0; x++ {
+							if !dead[x] {
+								first = x
+							}
+						}
+						if first >= 0 {
+							h = append(h, Op{Kind: "block", Dels: []int{first}, Adds: 1, Rem: kr[:0]})
+						}
+						if undo {
+							for u, nb := 1, len(h); u < nb; u++ {
+								h = append(h, Op{Kind: "undo"})
+							}
+						}
+						jobs = append(jobs, job{h})
+					}
+				}
+			}
+		}
+		c.Cov.Bound["very_tall"] = fmt.Sprintf("N=%v, aligned halves / quarters / near-halves deleted, 0,1,3 additions, then the first survivor; %d histories", vtNs, len(jobs)-before)
+	}
 	var steps, evals int64
 	ok := parallelFor(c, len(jobs), func(i int) {
 		n, _ := fam.Root()
@@ -801,4 +865,12 @@ func lightBases(c *Ctx, prop string, nmax, undo int) {
 		}
 		BFS(c, &LightFamily{Nmax: nmax, UndoBud: undo, Prop: prop, RemMode: rm, Base: b}, 0)
 	}
+}
+
+func nextPow2(n int) int {
+	p := 1
+	for p < n {
+		p *= 2
+	}
+	return p
 }
